@@ -86,7 +86,7 @@ def run(ctx):
     rng = ctx.rng
     n = ctx.pick(500, 30000) // ctx.nshards
     ctx.rule = ('batches of 1..20 manager operations of every kind (reveal, transaction to tz/KT, origination, delegation, '
-                'register_global_constant, transfer_ticket, smart rollup messages / outbox), all four source key kinds, node counters up '
+                '(explicit delegate, none, or left empty for self registration), register_global_constant, transfer_ticket, smart rollup messages / outbox), all four source key kinds, node counters up '
                 'to 2^62, simulated gas 0..1,040,000 and storage diffs; fill() and autofill() with default arguments; total fee vs the '
                 'default mempool formula in nanotez over the real signed size; distinct by (key kind, method, contents); non-trivial '
                 '= batch of >= 2 or BLS key')
@@ -94,6 +94,10 @@ def run(ctx):
         curve = [b'ed', b'sp', b'p2', b'BL'][i % 4] if i % 8 < 7 else b'BL'
         k = rng.choice([1, 1, 1, 2, 2, 3, 5, 8, 13, 20])
         contents = [blank(GO.content(rng, rng.choice(KINDS))) for _ in range(k)]
+        for c in contents:
+            if c['kind'] == 'delegation' and rng.random() < 0.5:
+                c['delegate'] = ''          # client.delegation() without an argument: self registration, filled in by the client
+                ctx.count('self_registration_delegations')
         gas_pool = rng.choice([[0], [1, 100], [1000, 5000], [10000, 100000], [1040000 // max(k, 1)], [3, 1040000 // max(k, 1)]])
         how = rng.choice(['fill', 'autofill'])
         judge(ctx, rng, curve, contents, how, lambda c: rng.choice(gas_pool))
